@@ -32,7 +32,7 @@ PROP = dict(
          "header (every spelling of DefaultMediaType - plain, with parameters, upper case - when the header is absent/empty) and over "
          "the client/context lattice, plus seeded random; sequences of 2/3/6 calls whose readers KEEP the ClientResponse and ask it "
          "again after the later calls; the wire-level client lattice (operation client none / bare / own Transport / own Jar / both "
-         "x runtime RoundTripper marker x runtime cookie jar, against a real httptest server - or one concurrent run: N callers on a fresh Runtime under a TLC-exported gate "
+         "x runtime RoundTripper marker x runtime cookie jar, against a real httptest server) - or one concurrent run: N callers on a fresh Runtime under a TLC-exported gate "
          "schedule (all 1700 interleavings of 3 gates for N=2,3), a barrier inside the params writers or inside RoundTrip, or free "
          "running (N in {2,8,64}, GOMAXPROCS in {1,2,4,16}). Non-trivial: header not plain or no operation client / any concurrent "
          "case; distinct by hash of the case.",
